@@ -267,6 +267,11 @@ impl Run {
     pub fn finish(mut self, mut evidence: vcore::Evidence) -> i32 {
         self.recheck_determinism();
         evidence.set("determinism_rechecked_cases", self.rechecked);
+        // a run that found violations (crashing or hanging inputs use up the wall clock) may not have
+        // reached every class of input: the non-vacuity assertions are about clean, complete runs
+        if self.reporter.violation_count() > 0 || self.capped {
+            self.machinery.retain(|m| !m.starts_with("non-vacuity"));
+        }
         if !self.machinery.is_empty() {
             for m in &self.machinery {
                 eprintln!("MACHINERY: {}", m);
